@@ -121,6 +121,12 @@ Definition py_is_envelope_lossy (v : bytes) : bool :=
   else if negb (bytes_eqb (firstn 1 v) [123]) then false
   else contains marker (decode_from [] d0 (firstn 50 v)).
 
+(* ---------- the resolvers' first step (Go Resolver.Resolve / Consumer.Unwrap, Python
+   LfsResolver.resolve, JS LfsResolver.resolve): a value the detector rejects is
+   handed back unchanged (Some value); None = treated as an envelope ---------- *)
+Definition pass_through (detector : bytes -> bool) (value : bytes) : option bytes :=
+  if detector value then None else Some value.
+
 (* ---------- envelopes: EncodeEnvelope / DecodeEnvelope ---------- *)
 Record envelope := mkEnv {
   e_version : Z; e_bucket : bytes; e_key : bytes; e_size : Z; e_sha256 : bytes;
